@@ -91,6 +91,13 @@ def main():
     mcases = mono_templates.cases(chk.seed, quick, per_module=2)
     mjobs = A.jobs_for_generated(mcases, lambda c: [["verbose-all"], ["silent-all"]][c["index"] % 2])
     mono_templates.judge(chk, "C06", mcases, A.run(mjobs, timeout=600), A.STRUCTURAL)
+    # negative typing: Data reaching a typed slot without `expect`, one template per syntactic position;
+    # the checker must refuse (an acceptance is compiled and run on Data of the wrong kind)
+    import illtyped_templates
+
+    ijobs = illtyped_templates.jobs()
+    ires = A.run([{k: v for k, v in j.items() if not k.startswith("_")} for j in ijobs], timeout=300)
+    illtyped_templates.judge(chk, "C06", ijobs, ires, A.STRUCTURAL)
     for k, v in err_seen.items():
         chk.count("err:" + k, v)
     chk.assumptions = [
@@ -99,7 +106,7 @@ def main():
     ]
     chk.finish(
         rule="every evaluation of compiled well-typed code in the G-aiken streams (entries x argument tuples, silent and verbose) of harvested unit tests, and of the monomorphisation templates (generic function at two instantiation types per program); distinct = (module, entry, argument tuple)",
-        floor={"evaluations": 10000, "allowed_failures": 300, "harvested_tests": 50},
+        floor={"evaluations": 10000, "allowed_failures": 300, "harvested_tests": 50, "downcast_without_expect_programs": 40},
     )
 
 
